@@ -349,9 +349,9 @@ theorem noRef_fabric_write (n : Node) (f f' : Fabric) (hidx : f'.idx = f.idx) (h
     rw [this]; exact h2
 
 theorem sessOp_write_noRef (cfg : Cfg) (n : Node) (sid : Nat) (mode : Mode) (op : Op) (h : NoRef n)
-    (hop : (∃ s v, op = .acl s v) ∨ (∃ s v, op = .grp s v) ∨ (∃ s v, op = .label s v)) :
+    (hop : (∃ s v, op = .acl s v) ∨ (∃ s v, op = .grp s v) ∨ (∃ s v, op = .label s v) ∨ (∃ s, op = .fwrite s)) :
     NoRef (sessOp cfg n sid mode op).1 := by
-  rcases hop with ⟨s, v, rfl⟩ | ⟨s, v, rfl⟩ | ⟨s, v, rfl⟩
+  rcases hop with ⟨s, v, rfl⟩ | ⟨s, v, rfl⟩ | ⟨s, v, rfl⟩ | ⟨s, rfl⟩
   · simp only [sessOp]
     split
     · exact h
@@ -381,6 +381,12 @@ theorem sessOp_write_noRef (cfg : Cfg) (n : Node) (sid : Nat) (mode : Mode) (op 
       · cases hg : getFabric n mode.fab with
         | none => exact h
         | some f => exact noRef_fabric_write n f { f with label := v } rfl h
+  · simp only [sessOp]
+    split
+    · exact h
+    · cases hg : getFabric n mode.fab with
+      | none => exact h
+      | some f => exact noRef_fabric_write n f f rfl h
 
 theorem sessOp_simple_noRef (cfg : Cfg) (n : Node) (sid : Nat) (mode : Mode) (op : Op) (h : NoRef n)
     (hop : (∃ s, op = .openW s) ∨ (∃ s u, op = .csr s u) ∨ (∃ s c, op = .root s c) ∨
@@ -612,7 +618,8 @@ theorem sessOp_noRef (cfg : Cfg) (n : Node) (sid : Nat) (mode : Mode) (op : Op) 
   | updnoc s node ser => exact sessOp_updnoc_noRef cfg n sid s node ser mode h
   | acl s v => exact sessOp_write_noRef cfg n sid mode _ h (Or.inl ⟨s, v, rfl⟩)
   | grp s v => exact sessOp_write_noRef cfg n sid mode _ h (Or.inr (Or.inl ⟨s, v, rfl⟩))
-  | label s v => exact sessOp_write_noRef cfg n sid mode _ h (Or.inr (Or.inr ⟨s, v, rfl⟩))
+  | label s v => exact sessOp_write_noRef cfg n sid mode _ h (Or.inr (Or.inr (Or.inl ⟨s, v, rfl⟩)))
+  | fwrite s => exact sessOp_write_noRef cfg n sid mode _ h (Or.inr (Or.inr (Or.inr ⟨s, rfl⟩)))
   | net s v => exact sessOp_simple_noRef cfg n sid mode _ h (Or.inr (Or.inr (Or.inr (Or.inl ⟨s, v, rfl⟩))))
   | rmnet s v => exact sessOp_simple_noRef cfg n sid mode _ h (Or.inr (Or.inr (Or.inr (Or.inr ⟨s, v, rfl⟩))))
   | complete s => exact sessOp_complete_noRef cfg n sid s mode h
